@@ -1228,8 +1228,8 @@ func TestVerif_C29(t *testing.T) {
 		return x
 	}
 
-	nBubble := r.N(400, 12000)
-	nPlain := r.N(300, 8000)
+	nBubble := r.N(400, 8000)
+	nPlain := r.N(300, 5000)
 	for _, tg := range targets {
 		r.Cases("bubble-"+tg.name, nBubble, func(c *verifrt.Case) {
 			scripts := tg.gen(c.Rng)
